@@ -2,15 +2,17 @@
 
 Deductive part (re-used kernels, UNITS): the line-count resumption for mid-text parses (LineCounter.from_text_slice with a
 _TextSlice_WithLineCount snapshot, advance_to - C06) and the start search (Scanner.search: earliest start over all chunks, inside
-the window - C07).  The candidate loop ParsingFrontend._scan itself (generator over a live lexer/parser pair with nested exception
+the window - C07), and two regions of ParsingFrontend._scan: the window handed to each candidate parse carries the line state of its
+start offset (which discharges the precondition C06 assumes about such windows), and after a start that led to no match the search
+resumes at the very next offset.  The candidate loop as a whole (generator over a live lexer/parser pair with nested exception
 handling) is a BOUNDED stand-in: exhaustive comparison with brute-force leftmost-longest substring parsing.
 """
 from pyvc.util import native_file
 
 PROPERTY = 'C14'
-UNITS = ['C06', 'C07']
+UNITS = ['C14', 'C06', 'C07']
 TRUSTED = []
-ASSUMPTIONS = ["ParsingFrontend._scan is not under contract: bounded stand-in only (never counted as proved)",
+ASSUMPTIONS = ["ParsingFrontend._scan: only two regions are under contract (snapshot, resume); longest-match selection and replay are covered by the bounded stand-in only (never counted as proved)",
                "'no skipped position starts a snippet that parses' fails for the basic lexer because candidates are lexed with maximal munch over the whole remaining window (known finding F18)"]
 BOUNDED = [dict(name='standin.scan', function='lark.parser_frontends:ParsingFrontend._scan (through Lark.scan)',
                 code=native_file('bounded/c14_scan.py'),
@@ -19,5 +21,48 @@ BOUNDED = [dict(name='standin.scan', function='lark.parser_frontends:ParsingFron
                 note='bounded stand-in for _scan; exhaustive within the bound')]
 
 
+def _replay(model):
+    return native_file('bounded/c14_scan.py')
+
+
+def _snapshot_region(fn):
+    import ast
+    for n in ast.walk(fn):
+        if isinstance(n, ast.While):
+            out = [s for s in n.body if (isinstance(s, ast.Expr) and 'line_ctr.advance_to' in ast.unparse(s)) or
+                   (isinstance(s, ast.Assign) and '_TextSlice_WithLineCount' in ast.unparse(s.value))]
+            if len(out) == 2 and n.body.index(out[1]) == n.body.index(out[0]) + 1:
+                return out
+    return None
+
+
+def _resume_region(fn):
+    import ast
+    for n in ast.walk(fn):
+        if isinstance(n, ast.If) and ast.unparse(n.test) == 'longest_match' and n.orelse:
+            return n.orelse
+    return None
+
+
 def register(reg):
-    pass
+    """two regions of the candidate loop ParsingFrontend._scan (the loop as a whole stays a bounded stand-in)"""
+    from contracts import textmodel
+    textmodel.register_text(reg)
+    textmodel.register_linecounter(reg, serves=[])
+    d = dict(t='text_slice.text', p='match_start')
+    reg.contract('lark.lexer:_TextSlice_WithLineCount.__init__', assumed=True, kind='method', modifies=['self'],
+                 params={'self': '_TextSlice_WithLineCount', 'text': 'text', 'start': 'int', 'end': 'int', 'line': 'int', 'line_start_pos': 'int'},
+                 ensures=['self.text == text', 'self.start == start', 'self.end == end', 'self.line == line', 'self.line_start_pos == line_start_pos'])
+    # the window handed to each candidate parse carries the line state OF ITS START OFFSET: this discharges the precondition that
+    # LineCounter.from_text_slice (C06) assumes about a _TextSlice_WithLineCount
+    reg.contract('lark.parser_frontends:ParsingFrontend._scan#snapshot', serves=['C14'], region=_snapshot_region,
+                 params={'text_slice': 'TextSlice', 'line_ctr': 'LineCounter', 'match_start': 'int'}, modifies=['line_ctr'],
+                 requires=textmodel.INV('line_ctr', 'text_slice.text') + ['line_ctr.char_pos <= match_start', 'match_start <= text_slice.end', 'text_slice.end <= len(text_slice.text)'],
+                 ghost={'ensures_fall': textmodel.INV('line_ctr', 'text_slice.text') + [
+                     'text_slice_wlc.text == text_slice.text', 'text_slice_wlc.start == match_start', 'text_slice_wlc.end == text_slice.end',
+                     'text_slice_wlc.line == %s' % (textmodel.LINE % d), 'text_slice_wlc.line_start_pos == %s' % (textmodel.LSP % d)]},
+                 names={'_TextSlice_WithLineCount': ('class', '_TextSlice_WithLineCount')}, replay=_replay)
+    # after a start that led to no match, the search resumes at the very next offset: no possible start is skipped
+    reg.contract('lark.parser_frontends:ParsingFrontend._scan#resume', serves=['C14'], region=_resume_region,
+                 params={'match_start': 'int', 'matched_tokens': 'list[any]'},
+                 ghost={'ensures_fall': ['pos == match_start + 1']}, replay=_replay)
